@@ -1,6 +1,7 @@
 SPECIFICATION Spec
 CONSTANTS
   TcCode = FALSE
+  PathKinds = {"empty", "onehop", "scion2", "epic2"}
   Fills = {90}
 INVARIANTS TypeOK Exact
 CHECK_DEADLOCK FALSE
